@@ -123,6 +123,8 @@ def make(params):
     kind = dpi[0]
     if mode not in MODES[fmt]:
         mode = MODES[fmt][0]
+    if fmt == "JPEG" and kind in ("jfif", "nojfif") and mode == "CMYK":
+        mode = "RGB"  # the encoder writes no JFIF segment for CMYK (Adobe APP14 instead)
     im = Image.frombytes(mode, (w, h), _pixels(mode, w, h, seed))
     if mode == "P":
         im.putpalette([(seed * 7 + i * 5) & 0xFF for i in range(768)])
@@ -230,4 +232,45 @@ def own_dpi(blob):
             return None
         x, y = struct.unpack("<ii", blob[38:46])
         return (x / 39.3701, y / 39.3701)
+    if f == "TIFF":
+        return _tiff_dpi(blob)
     return "unknown"
+
+
+def _tiff_dpi(blob):
+    """TIFF 6.0: XResolution (282) / YResolution (283) have no default; ResolutionUnit (296)
+    defaults to 2 (inch); 3 = centimetre; 1 = no absolute unit."""
+    e = "<" if blob[:2] == b"II" else ">"
+    try:
+        (off,) = struct.unpack(e + "I", blob[4:8])
+        (n,) = struct.unpack(e + "H", blob[off:off + 2])
+        tags = {}
+        for i in range(n):
+            ent = blob[off + 2 + 12 * i: off + 14 + 12 * i]
+            tag, typ, cnt = struct.unpack(e + "HHI", ent[:8])
+            if tag not in (282, 283, 296):
+                continue
+            if cnt != 1:
+                return "unknown"
+            if typ == 3:
+                tags[tag] = float(struct.unpack(e + "H", ent[8:10])[0])
+            elif typ == 4:
+                tags[tag] = float(struct.unpack(e + "I", ent[8:12])[0])
+            elif typ == 5:
+                (vo,) = struct.unpack(e + "I", ent[8:12])
+                num, den = struct.unpack(e + "II", blob[vo:vo + 8])
+                if den == 0:
+                    return "unknown"
+                tags[tag] = num / den
+            else:
+                return "unknown"
+    except struct.error:
+        return "unknown"
+    if 282 not in tags or 283 not in tags:
+        return None
+    unit = tags.get(296, 2.0)
+    if unit == 2.0:
+        return (tags[282], tags[283])
+    if unit == 3.0:
+        return (tags[282] * 2.54, tags[283] * 2.54)
+    return None
